@@ -200,32 +200,92 @@ def tlc_trace_one(module, trace_path, timeout):
     return mis
 
 
-def run_gen(cmds, timeout):
-    """cmds: list of (argv, outfile). Run in parallel. A child killed by a signal becomes a crash event."""
-    procs = []
-    for argv, outp in cmds:
-        marker = outp + ".case"
-        procs.append((subprocess.Popen(argv + ["--marker", marker], stdout=subprocess.DEVNULL, stderr=subprocess.PIPE, text=True), argv, outp, marker))
-    t_end = time.time() + timeout
-    for p, argv, outp, marker in procs:
+def _drop_partial_tail(path):
+    """a killed child leaves a truncated last line (buffered writer): drop it so the rest of the trace is still examined"""
+    if not os.path.exists(path):
+        open(path, "w").close()
+        return
+    lines = open(path).read().split("\n")
+    while lines:
         try:
-            _, err = p.communicate(timeout=max(1, t_end - time.time()))
-        except subprocess.TimeoutExpired:
-            p.kill()
-            p.communicate()
-            case = open(marker).read() if os.path.exists(marker) else "?"
-            with open(outp, "a") as f:
-                f.write("\n" + json.dumps({"op": "crash", "signal": "timeout", "case": case, "argv": argv[1:]}) + "\n")
-            continue
-        if p.returncode < 0:
-            case = open(marker).read() if os.path.exists(marker) else "?"
-            with open(outp, "a") as f:
-                f.write("\n" + json.dumps({"op": "crash", "signal": signal.Signals(-p.returncode).name, "case": case, "argv": argv[1:]}) + "\n")
-        elif p.returncode != 0:
-            raise ToolError(f"harness driver failed ({p.returncode}): {' '.join(argv)}\n{(err or '')[-2000:]}")
+            if lines[-1].strip():
+                json.loads(lines[-1])
+                break
+        except Exception:
+            pass
+        lines.pop()
+    open(path, "w").write("\n".join(lines) + ("\n" if lines else ""))
+
+
+def run_gen(cmds, timeout):
+    """cmds: list of (argv, outfile). Run in parallel. A child killed by a signal (or hung) becomes a crash event; the
+    shard is then continued with a fresh seed for the remaining cases (at most 3 times) so the rest is still examined."""
+    t_end = time.time() + timeout
+
+    def launch(argv, outp):
+        marker = outp + ".case"
+        return (subprocess.Popen(argv + ["--marker", marker], stdout=subprocess.DEVNULL, stderr=subprocess.PIPE, text=True), argv, outp, marker)
+
+    def crash_event(outp, marker, argv, sig):
+        case = open(marker).read() if os.path.exists(marker) else "?"
+        _drop_partial_tail(outp)
+        with open(outp, "a") as f:
+            f.write(json.dumps({"op": "crash", "signal": sig, "case": case, "argv": [a for a in argv[1:] if not a.startswith("/")]}) + "\n")
+        return case
+
+    def continuation(argv, outp, case, k):
+        # "name:seed:index" -> run the remaining cases under a different seed, appending to a side file
+        try:
+            idx = int(case.rsplit(":", 1)[1])
+            a = list(argv)
+            n = int(a[a.index("--n") + 1])
+            seed = int(a[a.index("--seed") + 1])
+            if n - idx - 1 <= 0:
+                return None
+            a[a.index("--n") + 1] = str(n - idx - 1)
+            a[a.index("--seed") + 1] = str(seed + 7919 * k)
+            part = outp + f".part{k}"
+            a[a.index("--out") + 1] = part
+            if "--extras" not in a:
+                a += ["--extras", "0"]
+            return a, part
+        except (ValueError, IndexError):
+            return None
+
+    procs = [launch(argv, outp) for argv, outp in cmds]
+    for p, argv, outp, marker in procs:
+        restarts = 0
+        cur = (p, argv, outp, marker)
+        target = outp
+        while True:
+            p, argv_c, outp_c, marker_c = cur
+            sig = None
+            try:
+                _, err = p.communicate(timeout=max(1, t_end - time.time()))
+            except subprocess.TimeoutExpired:
+                p.kill()
+                p.communicate()
+                sig = "timeout"
+            if sig is None and p.returncode < 0:
+                sig = signal.Signals(-p.returncode).name
+            if sig is None and p.returncode != 0:
+                raise ToolError(f"harness driver failed ({p.returncode}): {' '.join(argv_c)}\n{(err or '')[-2000:]}")
+            if sig is not None:
+                case = crash_event(outp_c, marker_c, argv_c, sig)
+            if outp_c != target and os.path.exists(outp_c):
+                with open(target, "a") as f:
+                    f.write(open(outp_c).read())
+                os.remove(outp_c)
+            if os.path.exists(marker_c):
+                os.remove(marker_c)
+            if sig is None or sig == "timeout" or restarts >= 3:
+                break
+            restarts += 1
+            c = continuation(argv, target, case, restarts)
+            if c is None:
+                break
+            cur = launch(c[0], c[1])
     for _, _, outp, marker in procs:
-        if os.path.exists(marker):
-            os.remove(marker)
         # normalise: drop blank lines
         lines = [l for l in open(outp).read().splitlines() if l.strip()]
         open(outp, "w").write("\n".join(lines) + ("\n" if lines else ""))
